@@ -338,9 +338,10 @@ func (r *run) craftHTTP(g gen, sv *srv) []byte {
 		case connect:
 			method = "CONNECT"
 		default:
-			method = pick(g, []string{"GET", "GET", "POST", "HEAD", "PUT", "OPTIONS", "get", "", "G\x00T", strings.Repeat("M", pick(g, []int{100, 5000, 70000}))})
-			if len(method) > 20 {
+			method = pick(g, []string{"GET", "GET", "POST", "HEAD", "PUT", "OPTIONS", "get", "", "G\x00T", "huge"})
+			if method == "huge" {
 				s.Probe("c06.op.http-huge-method")
+				method = strings.Repeat("M", pick(g, []int{100, 5000, 70000}))
 			}
 		}
 		host := r.httpHost(g)
@@ -429,7 +430,7 @@ func (r *run) craftHTTP(g gen, sv *srv) []byte {
 			case 6:
 				b.WriteString("Upgrade: websocket\r\nConnection: Upgrade\r\n")
 			case 7:
-				fmt.Fprintf(&b, "X-Long: %s\r\n", strings.Repeat("v", pick(g, []int{1000, 70000, 1100000})))
+				fmt.Fprintf(&b, "X-Long: %s\r\n", strings.Repeat("v", pick(g, []int{1000, 70000, 70000, 1100000})))
 			case 8:
 				b.WriteString(" folded: continuation\r\n")
 			case 9:
